@@ -751,6 +751,12 @@ func c04R10(c *Ctx) {
 				if !boolDerivesFrom(iff.Cond, cv) {
 					continue
 				}
+				// the flag survives from one drained batch to the next: its `false` comes from outside every loop
+				// (a flag re-initialised inside the outer drain loop forgets a dropped ack as soon as the next
+				// persister flush queues another one)
+				if !flagInitOutsideLoops(loop, iff.Cond) {
+					continue
+				}
 				for _, sc := range b.Succs {
 					// the edge b→sc dominates the call (sc has no other predecessor)
 					if (sc == call.Block() || sc.Dominates(call.Block())) && len(sc.Preds) == 1 && b.Succs[0] != b.Succs[1] {
@@ -795,4 +801,47 @@ func boolDerivesFrom(v, src ssa.Value) bool {
 		return false
 	}
 	return walk(v)
+}
+
+// flagInitOutsideLoops: every constant incoming edge of the phi web behind v comes from a block that lies in no loop.
+func flagInitOutsideLoops(fn *ssa.Function, v ssa.Value) bool {
+	loops := kit.Loops(fn)
+	inLoop := func(b *ssa.BasicBlock) bool {
+		for _, l := range loops {
+			if l.Blocks[b] {
+				return true
+			}
+		}
+		return false
+	}
+	seen := map[ssa.Value]bool{}
+	ok := true
+	var walk func(x ssa.Value)
+	walk = func(x ssa.Value) {
+		if x == nil || seen[x] {
+			return
+		}
+		seen[x] = true
+		switch y := x.(type) {
+		case *ssa.Phi:
+			for i, e := range y.Edges {
+				if _, isC := e.(*ssa.Const); isC {
+					if inLoop(y.Block().Preds[i]) && kit.IsBoolConst(e, false) {
+						ok = false
+					}
+					continue
+				}
+				walk(e)
+			}
+		case *ssa.UnOp:
+			if y.Op == token.NOT {
+				walk(y.X)
+			}
+		case *ssa.BinOp:
+			walk(y.X)
+			walk(y.Y)
+		}
+	}
+	walk(v)
+	return ok
 }
